@@ -389,3 +389,47 @@ contract('mapproxy.request.base:Request.host', props=['C18'],
          ensures=["implies('HTTP_X_FORWARDED_HOST' not in self.environ and 'HTTP_HOST' in self.environ and ':' not in self.environ['HTTP_HOST'], "
                   "result == self.environ['HTTP_HOST'])"],
          raises={})
+
+
+# ---- in-image exceptions: the error is drawn into an image of the requested size and declared with a media type ------------------------
+def _inimage_answer(ex, st, post, result):
+    import z3
+    from pyvc.values import eq, VNone, VStr
+    err = post.env['request_error']
+    mi = [e for i, e in T.evs(st, 'message_image')]
+    resp = [e for i, e in T.evs(st, 'Response')]
+    ab = [e for i, e in T.evs(st, 'as_buffer')]
+    ok = len(mi) == 1 and len(resp) == 1 and len(ab) == 1 and ab[0].recv is not None and ab[0].recv.t.eq(mi[0].result.t) \
+        and resp[0].args[0] is ab[0].result and result is resp[0].result and 'content_type' in resp[0].kwargs
+    yield ('error_is_drawn_into_the_answer', z3.BoolVal(bool(ok)),
+           'the answer body is the encoded message image (the error text only ever appears as pixels)')
+    if not ok:
+        return
+    ct = resp[0].kwargs['content_type']
+    if isinstance(ct, VNone):
+        g = z3.BoolVal(True)
+    elif hasattr(ct, 'isnone'):
+        # (an absent or empty FORMAT declares nothing: the Response default applies)
+        g = z3.Or(ct.isnone, ct.val.t == z3.StringVal(''), z3.Contains(ct.val.t, z3.StringVal('/')))
+    elif isinstance(ct, VStr):
+        g = z3.Or(ct.t == z3.StringVal(''), z3.Contains(ct.t, z3.StringVal('/')))
+    else:
+        g = z3.BoolVal(False)
+    yield ('declared_type_is_a_media_type', g,
+           "the declared Content-type of an in-image error is a media type (type/subtype): a WMS 1.0.0 style format name (PNG, JPEG) is "
+           "declared as image/<name>, never echoed bare")
+    size = mi[0].kwargs.get('size')
+    g2 = z3.BoolVal(size is not None)
+    yield ('error_image_has_a_size', g2, 'the message image is created with the requested size (256x256 when the request has none)')
+
+
+cls('mapproxy.request.wms.exception:WMSImageExceptionHandler', fields={})
+contract('mapproxy.request.wms.exception:WMSImageExceptionHandler.render', props=['C18'],
+         types=dict(request_error='opaque'), returns='opaque', default_callee='opaque',
+         opaque_fields={'request': 'opaque', 'params': 'opaque', 'format': 'opaque', 'size': 'opt[tuple[int,int]]', 'format_mime_type': 'opt[str]',
+                        'msg': 'opaque'},
+         stable_fields=['request', 'params', 'format', 'size', 'format_mime_type', 'msg'],
+         opaque_spec={'_bgcolor': {'pure': True}, 'ImageOptions': {'pure': True}, 'message_image': {'pure': True}, 'as_buffer': {'pure': True},
+                      'Response': {'pure': True}, 'contains': {'returns': 'bool', 'pure': True}, 'lower': {'pure': True}},
+         opaque=['_bgcolor', 'Response'],
+         trace=[_inimage_answer])
